@@ -167,7 +167,7 @@ theorem rp_recreated_empty (c c1 c2 : Cat) (h1 : c.rpDrop = .ok c1) (h2 : c1.rpC
     have hg1 : (⟨some { d with rp := none }⟩ : Cat).getDb = .ok { d with rp := none } := getDb_ok.2 ⟨rfl, hd⟩
     simp only [Cat.rpCreate, hg1, bind, Except.bind, Except.ok.injEq] at h2
     subst h2
-    have : (⟨some { d with rp := some ⟨false, [], []⟩ }⟩ : Cat).getRp = .ok ({ d with rp := some ⟨false, [], []⟩ }, ⟨false, [], []⟩) :=
+    have : (⟨some { d with rp := some ⟨false, [], [], []⟩ }⟩ : Cat).getRp = .ok ({ d with rp := some ⟨false, [], [], []⟩ }, ⟨false, [], [], []⟩) :=
       getRp_ok.2 ⟨rfl, hd, rfl, rfl⟩
     rw [resolve_of_getRp this]
     simp [Rp.current, List.lookup]
@@ -194,6 +194,46 @@ theorem mCreate_next_version (c : Cat) (d : Db) (r : Rp) (n : String) (hg : c.ge
       rw [resolve_of_getRp (getRp_setRp hd (by simpa using hr))]
       simp [Rp.current, lookup_setAssoc]
 
+/-- **SHOW FIELD KEYS after DROP MEASUREMENT**: a marked measurement has no field keys to show
+(the name does not resolve) ... -/
+theorem mMark_no_fieldKeys (c c' : Cat) (n : String) (h : c.mMark n = .ok c') :
+    c'.fieldKeys n = .error .mstNotFound := by
+  have hr := mMark_unresolvable c c' n h
+  unfold Cat.resolve at hr
+  unfold Cat.fieldKeys
+  cases hg : c'.getRp with
+  | error e => simp [hg, bind, Except.bind] at hr ⊢; exact hr
+  | ok dr =>
+    simp only [hg, bind, Except.bind] at hr ⊢
+    cases hc : dr.2.current n with
+    | none => rfl
+    | some pm =>
+      obtain ⟨p, mk⟩ := pm
+      cases mk with
+      | true => rfl
+      | false => simp [hc] at hr
+
+/-- ... and a measurement created again starts with no field key, whatever the dropped one had. -/
+theorem mCreate_no_fieldKeys (c : Cat) (d : Db) (r : Rp) (n : String) (hg : c.getRp = .ok (d, r))
+    (hcur : ∀ p, r.current n ≠ some (p, false)) :
+    ∃ c' p, c.mCreate n = .ok (c', p) ∧ c'.fieldKeys n = .ok [] := by
+  obtain ⟨_, hd, _, hr⟩ := getRp_ok.1 hg
+  unfold Cat.mCreate
+  simp only [hg, bind, Except.bind]
+  have key : ∀ v : Nat, (Cat.setRp d (Rp.mk r.marked (setAssoc r.vers n v)
+      (setAssoc r.msts (nameWithVer n v) false) (setAssoc r.schema (nameWithVer n v) []))).fieldKeys n = .ok [] := by
+    intro v
+    unfold Cat.fieldKeys
+    rw [getRp_setRp hd (by simpa using hr)]
+    simp [bind, Except.bind, Rp.current, lookup_setAssoc]
+  cases hc : r.current n with
+  | none => exact ⟨_, _, rfl, key _⟩
+  | some pm =>
+    obtain ⟨p, mk⟩ := pm
+    cases mk with
+    | false => exact absurd hc (hcur p)
+    | true => exact ⟨_, _, rfl, key _⟩
+
 /-- the physical name of version `v` of `n`, run against the code's formatter in the harness. -/
 example : nameWithVer "m" 0 = "m_0000" ∧ nameWithVer "m" 1 = "m_0001" ∧ nameWithVer "cpu" 43981 = "cpu_abcd" := by
   decide
@@ -215,5 +255,29 @@ def demoRecreate : Option (String × String × String) :=
   | _ => none
 
 example : demoRecreate = some ("m_0000", "m_0001", "m_0001") := by decide
+
+/-- field keys over drop + create again: the old keys are gone. -/
+def demoFields : Option (List String × List String × List String) :=
+  match Cat.init.dbCreate with
+  | .ok c => match c.mCreate "m" with
+    | .ok (c, p0) => match c.addField "m" "fi" with
+      | .ok c => match c.addField "m" "fb" with
+        | .ok c => match c.fieldKeys "m", c.mMark "m" with
+          | .ok k0, .ok c => match c.mDrop p0 with
+            | .ok c => match c.mCreate "m" with
+              | .ok (c, _) => match c.fieldKeys "m", c.addField "m" "ff" with
+                | .ok k1, .ok c => match c.fieldKeys "m" with
+                  | .ok k2 => some (k0, k1, k2)
+                  | _ => none
+                | _, _ => none
+              | _ => none
+            | _ => none
+          | _, _ => none
+        | _ => none
+      | _ => none
+    | _ => none
+  | _ => none
+
+example : demoFields = some (["fb", "fi"], [], ["ff"]) := by decide
 
 end OG.C13
